@@ -215,8 +215,12 @@ def run(ctx):
     rc = ctx.rule('R-CANCEL', 'destructor / Cancel / Detach / ToFuture protocol', minimum=10)
     rd = ctx.rule('R-ROUTE.drop', '(shared with C05) a cancelled head (ReadyCore, coroutine PromiseType, PromiseCore) '
                   'stores StopTag on every path of Drop()', minimum=6)
+    rhm = ctx.rule('R-HANDLEMOVE', '(shared with C03) move-assigning over a Task never releases the chain it held by a '
+                   'bare DecRef: the chain leaves in the right-hand side and is cancelled by its destructor', minimum=1)
     for cfg, fb in sorted(fbs.items()):
         ctx.guard(lambda: lib_head.check(ctx, fb, cfg, rh, None))
+        from rules import lib_iptr
+        ctx.guard(lambda: lib_iptr.check_handle_move(ctx, fb, rhm))
         ctx.guard(lambda: check_start(ctx, fb, rs))
         ctx.guard(lambda: check_rewind(ctx, fb, rr))
         ctx.guard(lambda: check_lazy_attach(ctx, fb, rl))
